@@ -18,6 +18,15 @@ if REPO not in sys.path:
     sys.path.insert(0, REPO)
 
 
+ORACLE_NOTES = {}
+
+
+def note(key: str):
+    """oracles count what they did with each case (compared / skipped and why); check.py copies the
+    counts into the evidence so that a silently skipping oracle is visible"""
+    ORACLE_NOTES[key] = ORACLE_NOTES.get(key, 0) + 1
+
+
 def seed() -> int:
     try:
         return int(os.environ.get("VERIF_SEED", "0"))
